@@ -177,17 +177,18 @@ static int cb_common(htp_tx_t *tx, int kind, const uint8_t *data, size_t len, in
     if (hx_cur_script->light) {
         if (kind == CB_TX_COMPLETE) {
             o->steady_n_total++;
-            if (o->nsteady < 16) o->steady[o->nsteady++] = hx_live_bytes;
+            int64_t held_ = hx_live_bytes + (int64_t) hx_zlive * 7168;         /* an open zlib stream holds about 7 KB of its own */
+            if (o->nsteady < 16) o->steady[o->nsteady++] = held_;
             /* exact equality from the 4th transaction on: the allocator is deterministic, a slack would hide slow leaks */
             int per_ = hx_cur_script->steady_period;
-            if (per_ <= 1) { if (o->steady_n_total > 4 && hx_live_bytes != o->steady[3] && !o->steady_growth_at) o->steady_growth_at = o->steady_n_total; }
+            if (per_ <= 1) { if (o->steady_n_total > 4 && held_ != o->steady[3] && !o->steady_growth_at) o->steady_growth_at = o->steady_n_total; }
             else {
                 /* a round of several transactions repeats: the n-th completion is compared with the one a round earlier (ring of the last 16), after 3 rounds of warm-up */
                 static int64_t ring[16]; int n_ = o->steady_n_total;
-                if (per_ <= 16 && n_ > 4 * per_ && hx_live_bytes != ring[(n_ - per_) & 15] && !o->steady_growth_at) o->steady_growth_at = n_;
-                ring[n_ & 15] = hx_live_bytes;
+                if (per_ <= 16 && n_ > 4 * per_ && held_ != ring[(n_ - per_) & 15] && !o->steady_growth_at) o->steady_growth_at = n_;
+                ring[n_ & 15] = held_;
             }
-            o->steady_last = hx_live_bytes;
+            o->steady_last = held_;
         }
         hx_in_lib = sv;
         return HTP_OK;
